@@ -6,6 +6,13 @@ cd "$(dirname "$0")" || exit 2
 export GOFLAGS=-mod=mod GOPROXY=off GOSUMDB=off GOTOOLCHAIN=local
 export VERIF_TIER="${2:-quick}"
 mkdir -p bin evidence replays
+# VERIF_REPO (optional): check a copy of the repository at another path instead of /repo
+# (used for background runs against a snapshot); the module replace is redirected through an
+# alternate go.mod and nothing in this directory's go.mod changes.
+if [ -n "$VERIF_REPO" ] && [ "$VERIF_REPO" != "/repo" ]; then
+  sed "s#=> /repo#=> $VERIF_REPO#" go.mod > bin/alt.mod; cp go.sum bin/alt.sum
+  export GOFLAGS="-mod=mod -modfile=$PWD/bin/alt.mod"
+fi
 if ! go build -o bin/vcheck ./cmd/vcheck 2>bin/build.log; then
   echo "HARNESS-ERROR: build against /repo failed"; cat bin/build.log; exit 2
 fi
